@@ -772,3 +772,66 @@ func RandomValid(r *gen.Rand, maxOut int) (stream, plain []byte, desc string) {
 func pickStyle(r *gen.Rand) string {
 	return []string{"mixed", "mixed", "lits", "matches"}[r.Intn(4)]
 }
+
+// TwoDeepTrees builds a dynamic block whose distance code (and, optionally,
+// lit/len code) has two separate sub-trees reaching 15 bits: lengths
+// 1..9, then twice 11,12,13,14,15,15. Decoders with two-level tables need two
+// maximal long-code groups for it.
+func TwoDeepTrees(r *gen.Rand, litToo bool) (stream, plain []byte, desc string) {
+	s := NewStream(r)
+	distShape := []int{1, 2, 3, 4, 5, 6, 7, 8, 9, 11, 12, 13, 14, 15, 15, 11, 12, 13, 14, 15, 15}
+	perm := r.Perm(30)
+	distLens := make([]int, 30)
+	for i, l := range distShape {
+		distLens[perm[i]] = l
+	}
+	// tokens: literals first, then matches using every assigned distance symbol
+	var toks []Token
+	for i := 0; i < 40000; i++ {
+		toks = append(toks, Lit(byte(r.Intn(4))))
+		if i > 33000 {
+			break
+		}
+	}
+	for rep := 0; rep < 3; rep++ {
+		for sym := 0; sym < 30; sym++ {
+			if distLens[sym] == 0 {
+				continue
+			}
+			d := DistBase[sym] + r.Intn(1<<uint(DistExtra[sym]))
+			toks = append(toks, Match(r.Range(3, 258), d))
+		}
+	}
+	var lit []int
+	if litToo {
+		// lit/len: chain to depth 11, two 13..15 sub-trees, rest flat enough
+		lf, _ := Usage(toks)
+		var used []int
+		for i, f := range lf {
+			if f > 0 {
+				used = append(used, i)
+			}
+		}
+		extra := r.Perm(286)
+		for _, e := range extra {
+			if len(used) >= 40 {
+				break
+			}
+			if lf[e] == 0 {
+				used = append(used, e)
+			}
+		}
+		shape := TreeShape(r, len(used), 15, "random")
+		lit = AssignLengths(r, 286, used, lf[:], shape, false)
+	} else {
+		lit, _ = LengthsFor(r, toks, CodeOpts{MaxLit: r.Range(8, 15), FullHLIT: true})
+	}
+	sp := NewDynSpec()
+	sp.LitLens, sp.DistLens = lit, distLens
+	sp.RLE = "random"
+	s.Dynamic(true, toks, sp, true)
+	if !s.Valid {
+		panic("synth: TwoDeepTrees invalid")
+	}
+	return s.W.Bytes(), s.Plain, "two-deep-dist-subtrees " + fmt.Sprint(s.Desc)
+}
